@@ -106,6 +106,21 @@ def cases(tier, seed):
                             out.append(dict(sizes=list(sizes), E=E, k=1, support=[[1], [2]], pattern="dense",
                                             patterns={"1": pair, "2": second}, fd=fd, mask=None, hermitian=True,
                                             repr=rep, vset=0, total=4))
+    # more parameters / higher total order on the smallest layouts: k = 2 to total order 4 (mixed orders (2,1) vs
+    # (1,2), terms present only at higher orders), k = 3 to total order 3
+    for sizes in ((1, 1), (2, 1), (1, 1, 1)):
+        for E in lattice.level_patterns(sizes):
+            if len({tuple(e) for e in E}) < len(E):
+                continue
+            nb = len(sizes)
+            for fd in ([], list(range(nb))):
+                for rep in ("dense", "csr"):
+                    for sup in ([[1, 0], [0, 1]], [[2, 0], [1, 1]], [[1, 0], [0, 2], [2, 1]]):
+                        out.append(dict(sizes=list(sizes), E=E, k=2, support=sup, pattern="dense", fd=fd, mask=None,
+                                        hermitian=True, repr=rep, vset=0, total=4))
+                    for sup in ([[1, 0, 0], [0, 1, 0], [0, 0, 1]], [[1, 0, 0], [0, 1, 1], [0, 0, 2]]):
+                        out.append(dict(sizes=list(sizes), E=E, k=3, support=sup, pattern="dense", fd=fd, mask=None,
+                                        hermitian=True, repr=rep, vset=0, total=3))
     # every admissible symmetric mask on each block in turn
     for st in lattice.mask_structures(3 if tier == "quick" else 4, hermitian=True):
         for rep in ("sympy", "dense", "csr"):
